@@ -2,7 +2,7 @@
 
 The C++ side is GENERATED (container kinds and compile-time constants are types): for every
 (index function, argument values) the generated translation unit calls the real function once per
-container kind — std::vector, std::array, utl::static_vector, utl::vector, run-time tuple, raw C array,
+container kind — std::vector, std::array, utl::static_vector, utl::vector, run-time std::tuple and utl::tuple, raw C array,
 tuple of compile-time constants, tuple of clipped integers, plus constexpr evaluation — and prints one
 line "kind=result;kind=result;...".  The extracted model (where one exists: the Index / Broadcast
 functions proved in C01 / C06) gives the ideal result; otherwise the std::vector row is the reference.
@@ -12,7 +12,7 @@ from collections import Counter
 from harness import core
 
 ID = "C09"
-MODEL_MODULES = ["Base", "Index", "Broadcast", "KindIndep"]
+MODEL_MODULES = ["Base", "Index", "Broadcast", "Views", "Select", "KindIndep"]
 HANDLERS = ["h_c09.ml"]
 TWO_STAGE = True
 CLAIM = dict(
@@ -40,6 +40,8 @@ GEN_DIR = os.path.join(core.BUILD, "gen")
 # ---------------------------------------------------------------- value generators
 
 def _shape(rng, d=None, lo=1, hi=4):
+    if d is None and rng.random() < 0.25:            # ranks 5..7 (hand-unrolled tuple kinds change shape at 6 elements)
+        d = rng.randint(5, 7); return [rng.randint(1, 3) + (k % 2) for k in range(d)]
     d = d or rng.randint(1, 4)
     return [rng.randint(lo, hi) for _ in range(d)]
 
@@ -61,6 +63,10 @@ def _values(fn, rng):
         def stretch():
             x = [1 if rng.random() < 0.4 else e for e in t]
             return x[rng.randint(0, len(x) - 1):]
+        if rng.random() < 0.2:
+            # incompatible: one axis (any position, compatible axes before AND after it when the rank allows) differs with neither 1
+            a = list(t); b = list(t); k = rng.randrange(len(t)); a[k] = rng.randint(2, 4); b[k] = a[k] + rng.randint(1, 2)
+            return [a, b[rng.randint(0, k):]]
         if len(t) >= 2 and rng.random() < 0.5:
             # "cross" pattern: each operand is 1 exactly where the other is large (the result exceeds both operands' extents
             # on some axis, which is where bounds inherited from ONE operand show)
@@ -84,7 +90,15 @@ def _values(fn, rng):
             divs = [k for k in range(1, rem + 1) if rem % k == 0]
             k = rng.choice(divs); dst.append(k); rem //= k
         dst.append(rem); rng.shuffle(dst)
-        if rng.random() < 0.4: dst[rng.randrange(len(dst))] = -1
+        r = rng.random()
+        if r < 0.3: dst[rng.randrange(len(dst))] = -1
+        elif r < 0.75 and n >= 2:
+            # INVALID request (must be rejected by every kind): element count a proper divisor / a multiple / off by one
+            k = max(range(len(dst)), key=lambda q: dst[q]); m = rng.choice(["div", "div", "mul", "off"])
+            ds = [q for q in range(1, dst[k]) if dst[k] % q == 0]
+            if m == "div" and ds: dst[k] = rng.choice(ds)
+            elif m == "mul": dst[k] *= rng.randint(2, 3)
+            else: dst[k] += 1
         return [s, dst]
     if fn == "remove_dims":
         s = _shape(rng, rng.randint(2, 4))
@@ -94,10 +108,10 @@ def _values(fn, rng):
         return [s, [rng.randint(1, 3) for _ in s]]
     if fn == "normalize_axis":
         n = rng.randint(1, 4)
-        return [rng.randint(-n, n - 1), n]
+        return [rng.randint(-n - 2, n + 1), n]           # includes out-of-range axes (rejected)
     if fn == "normalize_axes":
         n = rng.randint(2, 4)
-        return [[rng.randint(-n, n - 1) for _ in range(rng.randint(1, 2))], n]
+        return [[rng.randint(-n - (1 if rng.random() < 0.3 else 0), n - 1 + (1 if rng.random() < 0.3 else 0)) for _ in range(rng.randint(1, 2))], n]
     if fn == "expand_dims":
         s = _shape(rng, rng.randint(1, 3))
         return [s, sorted(rng.sample(range(len(s) + 1), 1))]
@@ -124,7 +138,7 @@ CALL = {"strides": "ix::compute_strides({0})", "product": "ix::product({0})", "r
         "expand_dims": "ix::shape_expand_dims({0}, {1})", "repeat": "ix::shape_repeat({0}, {1}, {2})",
         "pad": "ix::shape_pad({0}, {1})", "concat": "ix::shape_concatenate({0}, {1}, {2})"}
 
-LIST_KINDS = ["vec", "veci", "arr", "sv", "svt", "uv", "tup", "raw", "ct", "cl"]
+LIST_KINDS = ["vec", "veci", "arr", "sv", "svt", "uv", "tup", "utup", "raw", "ct", "cl"]
 
 
 def _ct(v):
@@ -142,6 +156,7 @@ def _lit(kind, v, rng, rawdecl):
     if kind == "svt": return "SVN<%s,%d>({%s})" % (T, max(len(v), 1), body)      # capacity == length (as a hybrid-shape ndarray has)
     if kind == "uv": return "UV<%s>({%s})" % (T, body)
     if kind == "tup": return "nmtools_tuple{%s}" % ",".join("(%s)%d" % (T, x) for x in v)
+    if kind == "utup": return "nm::utl::tuple{%s}" % ",".join("(%s)%d" % (T, x) for x in v)    # the library's own tuple (STL-free builds)
     if kind == "ct": return "nmtools_tuple{%s}" % ",".join(_ct(x) for x in v)
     if kind == "cl":
         if signed: return None
@@ -167,7 +182,7 @@ def _rows(fn, vals, rng):
         # constant, clipped x constant, ...) so every pairing of a "static knowledge" family with another is instantiated
         combos += [("vec", "arr"), ("arr", "ct"), ("ct", "vec"), ("arr", "cl"), ("cl", "vec"), ("sv", "tup"),
                    ("sv", "ct"), ("ct", "sv"), ("cl", "ct"), ("ct", "cl"), ("uv", "ct"), ("tup", "ct"), ("ct", "arr"), ("sv", "arr"),
-                   ("svt", "ct"), ("ct", "svt"), ("svt", "arr"), ("svt", "cl")]
+                   ("svt", "ct"), ("ct", "svt"), ("svt", "arr"), ("svt", "cl"), ("utup", "vec"), ("arr", "utup"), ("vec", "ct"), ("uv", "cl")]
     if nlists == 0:
         combos = [("rt",), ("ct",)]
     for combo in combos:
@@ -207,6 +222,7 @@ PRELUDE = r'''// GENERATED by harness/props/c09.py — do not edit
 #include "nmtools/array/index/concatenate.hpp"
 #include "nmtools/utl/static_vector.hpp"
 #include "nmtools/utl/vector.hpp"
+#include "nmtools/utl/tuple.hpp"
 #include "show.hpp"
 namespace ix = nmtools::index; using namespace vd; using namespace nm::literals;
 template <typename R> static std::string sh(const R& r) {
@@ -231,10 +247,22 @@ def _generate(seed, tier):
     nsets = 6 if tier == "quick" else 24
     cases = []      # (fn, vals, rows)
     for fn in FUNCS:
-        for _ in range(nsets * (2 if fn in ("bshape", "transpose") else 1)):
+        for _ in range(nsets * (3 if fn == "reshape" else 2 if fn in ("bshape", "transpose") else 1)):
             vals = _values(fn, rng)
             cases.append((fn, vals, _rows(fn, vals, rng)))
     return cases
+
+
+def gen_for(funcs, nsets, rng, tier):
+    """case lines for a chosen list of functions (used by other properties that borrow the generated-kinds machinery:
+    C06 for broadcast_shape); the generated translation units are then built by drivers(tier) of this module"""
+    r = random.Random(rng.randint(0, 10 ** 6) * 7919 + 3)
+    cases = []
+    for fn in funcs:
+        for _ in range(nsets):
+            vals = _values(fn, r); cases.append((fn, vals, _rows(fn, vals, r)))
+    _state["cases"] = cases; _state["tier"] = tier
+    return ["g I:%d S:%s %s" % (i, fn, " ".join(_fmt(v) for v in vals)) for i, (fn, vals, rows) in enumerate(cases)]
 
 
 def _write_part(cases, part, rejected):
@@ -281,7 +309,7 @@ def drivers(tier):
     os.makedirs(GEN_DIR, exist_ok=True)
     specs = []; rejected = set(); _state["rejected"] = rejected
     for part in range(NPART):
-        for attempt in range(5):
+        for attempt in range(6):
             text, where = _write_part(cases, part, rejected)
             path = os.path.join(GEN_DIR, "c09_p%d_%s.cpp" % (part, hashlib.sha256(text.encode()).hexdigest()[:12]))
             open(path, "w").write(text)
@@ -317,7 +345,7 @@ def classify(line, impl, spec, model):
     fs = dict(x.split("=", 1) for x in spec.strip().strip(";").split(";") if "=" in x)
     bad = [k for k in fs if fi.get(k) != fs[k]]
     if (" S:remove_dims " in line and line.rstrip().endswith("I:1") and bad
-            and all((fi.get(k) == "trap-exception" and k.split(".")[0] in ("arr", "tup", "raw", "cl")) or k.split(".")[0] == "svt" for k in bad)):
+            and all((fi.get(k) == "trap-exception" and k.split(".")[0] in ("arr", "tup", "utup", "raw", "cl")) or k.split(".")[0] == "svt" for k in bad)):
         return "remove_dims-runtime-keepdims-true-fixed-size-shape"
     if bad and all(("cl" in k.split(".")[0].split("-")) for k in bad):
         return "clipped-kind-clamps:" + line.split(" ")[2][2:]
